@@ -109,6 +109,9 @@ let hostile_expected a =
   else if has a "bad" then hex_dec (str a "bad" "-")      (* a recorded wrong-outcome finding: on the unchanged tree it reproduces *)
   else if has a "want" then hostile_want a else "hostile ok"
 let op_dsl_hostile a = emit (hostile_expected a)
+let retry_expected a =
+  "retry ok" ^ (if has a "wa" then " a=" ^ str a "wa" "value" else "") ^ (if has a "wb" then " b=" ^ str a "wb" "error" else "")
+let op_dsl_retry a = emit (retry_expected a)
 let op_dsl_syntax a = emit (Printf.sprintf "syntax %s:%s" (str a "line" "0") (str a "col" "0"))
 
 (* oracle: the property evaluated on the IMPLEMENTATION's trace, case by case *)
@@ -149,6 +152,13 @@ let oracle_c15 script trace =
         fail (Printf.sprintf "step=%d hostile-outcome tag=%s want=%s got=%s" li (str a "tag" "none") (str a "want" "ok") l)
       else if not (has a "want") && l <> "hostile ok" then
         fail (Printf.sprintf "step=%d crash hostile tag=%s mode=%s impl=%s" li (str a "tag" "none") (str a "mode" "main") (List.hd (toks_of l)))
+    | Some ("dsl_retry", a) ->
+      let l = take () in
+      if is_bad_line l then fail (Printf.sprintf "step=%d crash hostile tag=retry:%s mode=%s impl=%s" li (str a "tag" "none") (str a "mode" "main") (List.hd (toks_of l)))
+      else if starts "retry inconsistent" l then
+        fail (Printf.sprintf "step=%d nondeterministic error-then-retry tag=%s mode=%s %s" li (str a "tag" "none") (str a "mode" "main") l)
+      else if l <> retry_expected a then
+        fail (Printf.sprintf "step=%d hostile-outcome tag=retry:%s want=%s got=%s" li (str a "tag" "none") (retry_expected a) l)
     | Some ("dsl_syntax", a) ->
       let l = take () in
       let want = Printf.sprintf "syntax %s:%s" (str a "line" "0") (str a "col" "0") in
@@ -161,4 +171,5 @@ let () =
   register_op "dsl_eval" op_dsl_eval;
   register_op "dsl_hostile" op_dsl_hostile;
   register_op "dsl_syntax" op_dsl_syntax;
+  register_op "dsl_retry" op_dsl_retry;
   register_oracle "C15" oracle_c15
